@@ -88,6 +88,25 @@ def check_datetime(ctx, t: int, bt):
         got = tuple(int(g) for g in m.groups()[:6]) + (int(frac[:6]), int(frac[6:15]), int(frac[15:24]))
         if got != want or len(m.group(7) or "") > 24:
             ctx.violation(what="str fields", ticks=t, observed=s, required=str(want))
+    # every way of building the same instant shows the same fields, text and repr: the public constructor with calendar
+    # fields, with only a microsecond (the tick value is then the rounded one), from datetime / hightime objects
+    import hightime as ht
+    builders = [("fields", lambda: DT(*want, tzinfo=dt.timezone.utc)),
+                ("microsecond only", lambda: DT(*want[:7], tzinfo=dt.timezone.utc)),
+                ("hightime", lambda: DT(ht.datetime(*want[:7], femtosecond=want[7], yoctosecond=want[8], tzinfo=dt.timezone.utc))),
+                ("datetime", lambda: DT(dt.datetime(*want[:7], tzinfo=dt.timezone.utc)))]
+    for label, mk in builders:
+        o2 = outcome(mk)
+        if o2[0] != "ok":
+            ctx.violation(what="constructor refused valid fields", how=label, ticks=t, observed=show(o2), required="a DateTime")
+            continue
+        y = o2[1]
+        canon = DT.from_ticks(y.ticks)
+        obs = (str(y), repr(y), (y.year, y.month, y.day, y.hour, y.minute, y.second, y.microsecond, y.femtosecond, y.yoctosecond))
+        req = (str(canon), repr(canon), expected_fields(y.ticks))
+        if obs != req:
+            ctx.violation(what="a DateTime built by the constructor shows other text / fields than its tick value has", how=label, ticks=y.ticks,
+                          observed=str(obs)[:300], required=str(req)[:300])
 
 
 def td_text_value(s: str):
